@@ -106,6 +106,36 @@ fn same_oracle(c: &SameCase, st: &mut Stats) -> Result<(), String> {
     }
   }
   st.evals(n as u64);
+  // what the output buffer held before the call must not matter (a client may reuse it)
+  {
+    let g = starx::mg(&tr.m, t, &tr.e);
+    let mut dirty = [0u8; 32];
+    for (i, b) in dirty.iter_mut().enumerate() {
+      *b = (fp(&tr.m.0) as u8).wrapping_add(i as u8) | 1;
+    }
+    g.sample_local_randomness(&mut dirty);
+    if dirty != rnds[0] {
+      return Err(format!("sample_local_randomness depends on the previous contents of the output buffer: {} vs {}", hx(&dirty), hx(&rnds[0])));
+    }
+    g.sample_local_randomness(&mut dirty);
+    if dirty != rnds[0] {
+      return Err("sampling the local randomness twice into the same buffer changes it".into());
+    }
+    let mut k1 = [0x5Au8; 16];
+    let mut k2 = [0u8; 16];
+    sta_rs::derive_ske_key(&rnds[0], &tr.e, &mut k1);
+    sta_rs::derive_ske_key(&rnds[0], &tr.e, &mut k2);
+    if k1 != k2 {
+      return Err("derive_ske_key depends on the previous contents of the output buffer".into());
+    }
+    let mut d1 = [0xFFu8; 32];
+    let mut d2 = [0u8; 32];
+    sta_rs::strobe_digest(&tr.m, &[&tr.e], "verif", &mut d1);
+    sta_rs::strobe_digest(&tr.m, &[&tr.e], "verif", &mut d2);
+    if d1 != d2 {
+      return Err("strobe_digest depends on the previous contents of the output buffer".into());
+    }
+  }
   if rnds.iter().any(|r| *r != rnds[0]) {
     return Err(format!("clients agreeing on {tr:?} derived different randomness"));
   }
@@ -331,8 +361,8 @@ pub fn property() -> Property {
       "tags and keys are only observable through a sharing, so they are compared for thresholds <= 200; the randomness is compared for all 32-bit thresholds",
     ],
     subs: vec![
-      prop_sub("same_triple", 5000, 100000, same_strat, same_oracle),
-      prop_sub("different_triples", 30000, 600000, diff_strat, diff_oracle),
+      prop_sub("same_triple", 5000, 300000, same_strat, same_oracle),
+      prop_sub("different_triples", 30000, 2000000, diff_strat, diff_oracle),
       prop_sub(
         "all_splits",
         600,
